@@ -40,6 +40,9 @@ ASSUMPTIONS = [
     'programs obey the documented discipline: no element written twice between two flushes of a log, cross-rank accesses separated by a collective sync point + barrier, elements of pending nonblocking puts untouched, cancel only before a flush trigger',
     'data log / metadata log file layout checked by correspondence (retained logs), not proved; crash recovery from logs is out of scope',
     'status delivery is observable only with injected statuses (harness/c12_hook.c overwrites the statuses returned by the real ncmpio wait)',
+    'all runs use ROMIO (OMPI_MCA_io=romio321): OpenMPI\'s default ompio returns short data for some collective strided reads ending at EOF (both drivers alike)',
+    'generated programs stay away from histories that trigger known defects of the DEFAULT driver used as reference (F1 subset waits with record variables, F3 "same as ALL" shortcuts: NULL ids next to subsets, blocking varn calls while requests are pending, zero-length varn entries)',
+    'session theorems (read_own_writes, visible_after_sync_points, bb_equals_default) exclude cancel and the NC_PUT_REQ_ALL mix (wf_stepb); the record-count part is proved as agreement after a collective flush + own records visible, its equality with the default driver over whole sessions is checked by correspondence only',
 ]
 HOOK = os.path.join(C.VERIF, 'harness', 'c12_hook.c')
 SHARED_BLOCK = 8388608
@@ -589,10 +592,11 @@ def run(ctx):
     if not proof_ok:
         ctx.violation('proof obligations of C12 do not check: %s' % (pr['failed'],), dict(log=pr['log'][-3000:]), no_input=True)
     work = C.scratch('c12.')
-    nrand = 170 if ctx.tier == 'quick' else 2400
+    nrand = int(os.environ.get('C12_NRAND', 130 if ctx.tier == 'quick' else 1100))
     progs = make_programs(ctx, nrand)
     results, nretry = run_all(progs, work, bbexe, deexe)
     ctx.cov['programs_rerun_after_watchdog'] = nretry
+    ctx.cov['mpi_io_layer'] = os.environ.get('C12_MPIIO', MPIIO)
     mres = {}
     if proof_ok or os.path.exists(os.path.join(C.COQ, 'BurstBuffer.vo')):
         mres = run_model([(tag, P.coq_case(flags)) for tag, P, flags in progs], work)
